@@ -1,16 +1,307 @@
 /-
 C01 — a satisfied primal SAGE constraint certifies nonnegativity on X.
-Property theorems about `Model/Sage.lean` (analysis lemmas: `Lemmas/ExpCone.lean`).
+Property theorems about `Model/Sage.lean` (analysis lemmas: `Lemmas/ExpCone.lean`; list-level and
+block-level lemmas: `Lemmas/SagePrimal*.lean`).
 -/
 import SageoptModel.Model.Sage
 import SageoptModel.Lemmas.ExpCone
+import SageoptModel.Lemmas.SagePrimalMain
+import SageoptModel.Lemmas.SagePrimalCover
+import SageoptModel.Lemmas.SagePrimalCounterex
+import Mathlib.Analysis.Complex.ExponentialBounds
+import Mathlib.Tactic.NormNum
 
 namespace Sageopt.Props.C01
-open Sageopt Sageopt.Sage Sageopt.Analysis
+open Sageopt Sageopt.Sage Sageopt.Compile Sageopt.Solvers Sageopt.Analysis
 
 /-- the core of the certificate: an exponential-cone row `(-epi, e·c, ν) ∈ K_exp` of `sum_relent` gives
     the linear minorant `ν·t − epi ≤ c·eᵗ` for every real `t` -/
 theorem expcone_row_minorant (epi c ν t : ℝ) (h : InExpCone (-epi) (Real.exp 1 * c) ν) :
     ν * t - epi ≤ c * Real.exp t := expcone_row epi c ν t h
+
+/-- semantics of the rows `sum_relent(x, y, z, epi, y_scale = e)` emits:
+    `0 ≤ −z − Σ epi_k` and `(−epi_k, e·y_k, x_k) ∈ K_exp` for every k
+    (the two length hypotheses of the target statement are not needed) -/
+theorem sumRelent_iff (Q : CType → List ℝ → Prop) (σ : Nat → ℝ) (x y : List AffE) (z : AffE) (epi : List Nat)
+    (_hy : y.length = x.length) (_he : epi.length = x.length) :
+    FeasBlocks (conP Q) (sumRelent x y z epi).2 ((sumRelent x y z epi).1.map (crowVal σ)) ↔
+      (0 ≤ -(argVal σ z) - (epi.map σ).sum) ∧
+      ∀ k, k < x.length →
+        InExpCone (-(σ (epi.getD k 0))) (Real.exp 1 * argVal σ (y.getD k (constE 0))) (argVal σ (x.getD k (constE 0))) :=
+  sp_sumRelent_iff Q σ x y z epi
+
+/-- kernel-basis witnesses are sound as soon as the basis lies in the kernel of the balance matrix
+    (a fact about the numerical SVD, audited per instance) -/
+def KernelOk (inp : PrimalIn) : Prop :=
+  inp.settings.kernelBasis = true → ∀ p ∈ inp.ids, p.basis ≠ [] →
+    ∀ t, t < inp.n → ∀ l, l < p.nu.length →
+      ((trueIdx (coverOf inp.ech p.i)).zipIdx.map fun (j, k) =>
+        ((inp.alpha.getD j []).getD t 0 - (inp.alpha.getD p.i []).getD t 0) * ((p.basis.getD k []).getD l 0)).sum = 0
+
+/-- THE PROPERTY.  For every exponent matrix, every coefficient vector (constants and affine
+    expressions), every domain X given in conic form over {+,0,S,e} (possibly with lifted coordinates), every
+    cover family with `i ∉ cover i` (user supplied, default, or presolved with any answers of the optimisation
+    presolve), every combination of the settings, and every assignment σ satisfying the compiled rows:
+    (i) the AGE vectors sum to at most c (exactly c under `sum_age_force_equality`),
+    (ii) every entry of an AGE vector other than its own index is nonnegative,
+    (iii) every AGE vector defines a signomial that is nonnegative at every point of X,
+    (iv) hence the signomial with coefficients c(σ) is nonnegative on all of X.
+
+    Two hypotheses are added to the target statement; both are facts about how the constructor creates the
+    auxiliary Variables that `WfPrimal` does not record, and without either the statement is false for the
+    model (counterexamples: `Lemmas/SagePrimalCounterex.lean`):
+    * `hcov0`: an index has no `nu` Variable only if its cover is empty (`num_cover = 0`);
+    * `hbasis`: under `kernel_basis`, a kernel basis is present exactly for ordinary (X = ℝⁿ) cones. -/
+theorem primal_sound (Q : CType → List ℝ → Prop) (inp : PrimalIn) (hwf : WfPrimal inp) (hker : KernelOk inp)
+    (hcov0 : ∀ p ∈ inp.ids, p.nu = [] → trueIdx (coverOf inp.ech p.i) = [])
+    (hbasis : inp.settings.kernelBasis = true → ∀ p ∈ inp.ids, p.nu ≠ [] → (p.basis ≠ [] ↔ inp.X = none))
+    (rows : List CRow) (K : List Cone) (h : primalRows inp = .ok (rows, K))
+    (σ : Nat → ℝ) (hσ : FeasRows Q σ rows K) :
+    let m := inp.alpha.length
+    ((inp.ids.filter fun p => !p.nu.isEmpty) ≠ [] →
+      (∀ j, j < m → (inp.ids.map fun p => ageVal σ m inp.c inp.ech p j).sum ≤ cVal σ inp.c j) ∧
+      (inp.settings.sumAgeForceEquality = true →
+        ∀ j, j < m → (inp.ids.map fun p => ageVal σ m inp.c inp.ech p j).sum = cVal σ inp.c j) ∧
+      (∀ p ∈ inp.ids, ∀ j, j < m → j ≠ p.i → 0 ≤ ageVal σ m inp.c inp.ech p j) ∧
+      (∀ p ∈ inp.ids, ∀ x, InDom Q inp.X inp.n x →
+        0 ≤ sigVal inp.alpha ((List.range m).map fun j => ageVal σ m inp.c inp.ech p j) x)) ∧
+    (∀ x, InDom Q inp.X inp.n x → 0 ≤ sigVal inp.alpha ((List.range m).map fun j => cVal σ inp.c j) x) :=
+  sp_primal_sound Q inp hwf hker hcov0 hbasis rows K h σ hσ
+
+/-- the same statement under the `_partial` naming convention (extra hypotheses `hcov0`, `hbasis`) -/
+theorem primal_sound_partial (Q : CType → List ℝ → Prop) (inp : PrimalIn) (hwf : WfPrimal inp) (hker : KernelOk inp)
+    (hcov0 : ∀ p ∈ inp.ids, p.nu = [] → trueIdx (coverOf inp.ech p.i) = [])
+    (hbasis : inp.settings.kernelBasis = true → ∀ p ∈ inp.ids, p.nu ≠ [] → (p.basis ≠ [] ↔ inp.X = none))
+    (rows : List CRow) (K : List Cone) (h : primalRows inp = .ok (rows, K))
+    (σ : Nat → ℝ) (hσ : FeasRows Q σ rows K) :
+    let m := inp.alpha.length
+    ((inp.ids.filter fun p => !p.nu.isEmpty) ≠ [] →
+      (∀ j, j < m → (inp.ids.map fun p => ageVal σ m inp.c inp.ech p j).sum ≤ cVal σ inp.c j) ∧
+      (inp.settings.sumAgeForceEquality = true →
+        ∀ j, j < m → (inp.ids.map fun p => ageVal σ m inp.c inp.ech p j).sum = cVal σ inp.c j) ∧
+      (∀ p ∈ inp.ids, ∀ j, j < m → j ≠ p.i → 0 ≤ ageVal σ m inp.c inp.ech p j) ∧
+      (∀ p ∈ inp.ids, ∀ x, InDom Q inp.X inp.n x →
+        0 ≤ sigVal inp.alpha ((List.range m).map fun j => ageVal σ m inp.c inp.ech p j) x)) ∧
+    (∀ x, InDom Q inp.X inp.n x → 0 ≤ sigVal inp.alpha ((List.range m).map fun j => cVal σ inp.c j) x) :=
+  primal_sound Q inp hwf hker hcov0 hbasis rows K h σ hσ
+
+/-- the target statement of `primal_sound` (hypotheses `WfPrimal`, `KernelOk` only) is false for the model:
+    each of the two added hypotheses is needed (`sp_ce1`, `sp_ce3`: `hbasis`; `sp_ce2`: `hcov0`, with `hbasis` true) -/
+example : ¬ ∀ (Q : CType → List ℝ → Prop) (inp : PrimalIn) (_ : WfPrimal inp) (_ : KernelOk inp)
+    (rows : List CRow) (K : List Cone) (_ : primalRows inp = .ok (rows, K))
+    (σ : Nat → ℝ) (_ : FeasRows Q σ rows K), sp_Concl Q inp σ :=
+  fun H => sp_ce1_not_sound (fun _ _ => True)
+    (H _ sp_ce1 sp_ce1_wf sp_ce1_kernelOk _ _ sp_ce1_rows sp_ce1σ (sp_ce1_feas _))
+
+example : ¬ ∀ (Q : CType → List ℝ → Prop) (inp : PrimalIn) (_ : WfPrimal inp) (_ : KernelOk inp)
+    (_ : inp.settings.kernelBasis = true → ∀ p ∈ inp.ids, p.nu ≠ [] → (p.basis ≠ [] ↔ inp.X = none))
+    (rows : List CRow) (K : List Cone) (_ : primalRows inp = .ok (rows, K))
+    (σ : Nat → ℝ) (_ : FeasRows Q σ rows K), sp_Concl Q inp σ :=
+  fun H => sp_ce2_not_sound (fun _ _ => True)
+    (H _ sp_ce2 sp_ce2_wf sp_ce2_kernelOk sp_ce2_basisOk _ _ sp_ce2_rows sp_ce2σ (sp_ce2_feas _))
+
+example : ¬ ∀ (Q : CType → List ℝ → Prop) (inp : PrimalIn) (_ : WfPrimal inp) (_ : KernelOk inp)
+    (_ : ∀ p ∈ inp.ids, p.nu = [] → trueIdx (coverOf inp.ech p.i) = [])
+    (rows : List CRow) (K : List Cone) (_ : primalRows inp = .ok (rows, K))
+    (σ : Nat → ℝ) (_ : FeasRows Q σ rows K), sp_Concl Q inp σ :=
+  fun H => sp_ce3_not_sound (fun _ _ => True)
+    (H _ sp_ce3 sp_ce3_wf sp_ce3_kernelOk sp_ce3_cov0 _ _ sp_ce3_rows sp_ce3σ (sp_ce3_feas _))
+
+/-- the ordinary case without kernel basis needs only `hcov0` -/
+theorem primal_sound_ord_partial (Q : CType → List ℝ → Prop) (inp : PrimalIn) (hwf : WfPrimal inp)
+    (hord : inp.X = none ∧ inp.settings.kernelBasis = false)
+    (hcov0 : ∀ p ∈ inp.ids, p.nu = [] → trueIdx (coverOf inp.ech p.i) = [])
+    (rows : List CRow) (K : List Cone) (h : primalRows inp = .ok (rows, K))
+    (σ : Nat → ℝ) (hσ : FeasRows Q σ rows K) :
+    let m := inp.alpha.length
+    ((inp.ids.filter fun p => !p.nu.isEmpty) ≠ [] →
+      (∀ j, j < m → (inp.ids.map fun p => ageVal σ m inp.c inp.ech p j).sum ≤ cVal σ inp.c j) ∧
+      (inp.settings.sumAgeForceEquality = true →
+        ∀ j, j < m → (inp.ids.map fun p => ageVal σ m inp.c inp.ech p j).sum = cVal σ inp.c j) ∧
+      (∀ p ∈ inp.ids, ∀ j, j < m → j ≠ p.i → 0 ≤ ageVal σ m inp.c inp.ech p j) ∧
+      (∀ p ∈ inp.ids, ∀ x, InDom Q inp.X inp.n x →
+        0 ≤ sigVal inp.alpha ((List.range m).map fun j => ageVal σ m inp.c inp.ech p j) x)) ∧
+    (∀ x, InDom Q inp.X inp.n x → 0 ≤ sigVal inp.alpha ((List.range m).map fun j => cVal σ inp.c j) x) :=
+  primal_sound Q inp hwf (fun hk => by rw [hord.2] at hk; cases hk) hcov0
+    (fun hk => by rw [hord.2] at hk; cases hk) rows K h σ hσ
+
+/-- indices that get no AGE cone have nonnegative constant coefficients (what makes (iv) follow from (i)–(iii)):
+    every index outside U_I is a nonnegative constant.
+    Added hypothesis `hja : j < alpha.length` (U_I only ranges over the rows of `alpha`; for
+    `alpha = []`, `c = [x₀]` the target statement fails at `j = 0`). -/
+theorem outside_U_nonneg (alpha : List (List Rat)) (c : List AffE) (hasX : Bool) (s : Settings) (answers : List Bool)
+    (j : Nat) (hj : j < c.length) (hja : j < alpha.length)
+    (hnot : j ∉ (defaultEch alpha (some (c.map classify)) hasX s answers).U) :
+    (c.getD j (constE 0)).co = [] ∧ 0 ≤ (c.getD j (constE 0)).off :=
+  sp_outside_U_nonneg alpha c hasX s answers j hj hja hnot
+
+theorem outside_U_nonneg_partial (alpha : List (List Rat)) (c : List AffE) (hasX : Bool) (s : Settings)
+    (answers : List Bool) (j : Nat) (hj : j < c.length) (hja : j < alpha.length)
+    (hnot : j ∉ (defaultEch alpha (some (c.map classify)) hasX s answers).U) :
+    (c.getD j (constE 0)).co = [] ∧ 0 ≤ (c.getD j (constE 0)).off :=
+  outside_U_nonneg alpha c hasX s answers j hj hja hnot
+
+/-- the target statement of `outside_U_nonneg` (without `j < alpha.length`) is false -/
+example : ¬ ∀ (alpha : List (List Rat)) (c : List AffE) (hasX : Bool) (s : Settings) (answers : List Bool)
+    (j : Nat) (_ : j < c.length) (_ : j ∉ (defaultEch alpha (some (c.map classify)) hasX s answers).U),
+    (c.getD j (constE 0)).co = [] ∧ 0 ≤ (c.getD j (constE 0)).off := by
+  intro h
+  have := (h [] [varE 0] false {} [] 0 (by decide) (by decide)).1
+  revert this
+  decide
+
+/-- the default cover family never covers an index by itself and never uses a definitely-negative index,
+    whatever the settings and the presolve answers: the sign / cover presolve only ever shrinks the cone -/
+theorem default_covers_ok (alpha : List (List Rat)) (signs : Option (List CSign)) (hasX : Bool) (s : Settings)
+    (answers : List Bool) :
+    let e := defaultEch alpha signs hasX s answers
+    ∀ p ∈ e.covers, p.1 ∈ e.U ∧ p.2.length = alpha.length ∧ p.1 ∉ trueIdx p.2 ∧ ∀ j ∈ trueIdx p.2, j ∉ e.N :=
+  sp_default_covers_ok alpha signs hasX s answers
+
+/-! ### non-vacuity (i): an ordinary instance, `1 − 2eˣ + e²ˣ` with the default covers -/
+
+def exAlpha : List (List Rat) := [[0], [1], [2]]
+def exC : List AffE := [constE 1, constE (-2), constE 1]
+def exEch : Ech := defaultEch exAlpha (some (exC.map classify)) false {} []
+def exP : PIds := { i := 1, nu := [10, 11], basis := [], cvar := [12, 13], epi := [14, 15], eta := [] }
+def exInp : PrimalIn :=
+  { n := 1, alpha := exAlpha, c := exC, X := none, settings := {}, ech := exEch, ids := [exP], dummy := 20 }
+
+def exRows : List CRow :=
+  [⟨[(14, -1), (15, -1)], -2, false⟩,
+   ⟨[(14, -1)], 0, false⟩, ⟨[(12, 1)], 0, true⟩, ⟨[(10, 1)], 0, false⟩,
+   ⟨[(15, -1)], 0, false⟩, ⟨[(13, 1)], 0, true⟩, ⟨[(11, 1)], 0, false⟩,
+   ⟨[(10, -1), (11, 1)], 0, false⟩,
+   ⟨[(12, -1)], 1, false⟩, ⟨[(20, 0)], 0, false⟩, ⟨[(13, -1)], 1, false⟩]
+def exK : List Cone := [⟨.pos, 1⟩, ⟨.exp, 3⟩, ⟨.exp, 3⟩, ⟨.zero, 1⟩, ⟨.pos, 3⟩]
+
+/-- U = N = [1], cover of 1 = [true, false, true] -/
+theorem exEch_eq : exEch = { U := [1], N := [1], P := [0, 2], covers := [(1, [true, false, true])] } := by
+  have h1 : exEch.U = [1] := by with_unfolding_all decide
+  have h2 : exEch.N = [1] := by with_unfolding_all decide
+  have h3 : exEch.P = [0, 2] := by with_unfolding_all decide
+  have h4 : exEch.covers = [(1, [true, false, true])] := by with_unfolding_all decide
+  calc exEch = ⟨exEch.U, exEch.N, exEch.P, exEch.covers⟩ := rfl
+    _ = _ := by rw [h1, h2, h3, h4]
+
+theorem exInp_rows : primalRows exInp = .ok (exRows, exK) := by with_unfolding_all decide
+
+theorem exInp_wf : WfPrimal exInp where
+  width := by with_unfolding_all decide
+  clen := by with_unfolding_all decide
+  idsU := by with_unfolding_all decide
+  cover := by with_unfolding_all decide
+  sizes := by with_unfolding_all decide
+  negConst := by with_unfolding_all decide
+  dom := by intro X h; cases h
+
+theorem exInp_kernelOk : KernelOk exInp := by intro h; cases h
+theorem exInp_cov0 : ∀ p ∈ exInp.ids, p.nu = [] → trueIdx (coverOf exInp.ech p.i) = [] := by
+  with_unfolding_all decide
+theorem exInp_basis : exInp.settings.kernelBasis = true → ∀ p ∈ exInp.ids, p.nu ≠ [] →
+    (p.basis ≠ [] ↔ exInp.X = none) := by intro h; cases h
+
+/-- ν = (1,1), c^{(1)} = (1,−2,1), epi = (−1,−1) -/
+noncomputable def exσ : Nat → ℝ := fun id =>
+  if id = 14 ∨ id = 15 then -1 else if id = 10 ∨ id = 11 ∨ id = 12 ∨ id = 13 then 1 else 0
+
+theorem exInp_feas (Q : CType → List ℝ → Prop) : FeasRows Q exσ exRows exK := by
+  unfold FeasRows exRows exK
+  simp only [feasBlocks_cons, feasBlocks_nil, List.map_cons, List.map_nil, crowVal_false, crowVal_true,
+    List.take_succ_cons, List.take_zero, List.drop_succ_cons, List.drop_zero, conP, realP, expR,
+    List.sum_cons, List.sum_nil, and_true]
+  simp only [exσ]
+  norm_num
+  exact Or.inl ⟨one_pos, by simp⟩
+
+/-- the theorem applies: the hypotheses of `primal_sound` are jointly satisfiable, the non-degenerate
+    branch is taken, and the conclusion is the nonnegativity of `1 − 2eˣ + e²ˣ` on ℝ -/
+example (Q : CType → List ℝ → Prop) :
+    (exInp.ids.filter fun p => !p.nu.isEmpty) ≠ [] ∧
+    ∀ x : List ℝ, InDom Q exInp.X exInp.n x →
+      0 ≤ sigVal exInp.alpha ((List.range exInp.alpha.length).map fun j => cVal exσ exInp.c j) x :=
+  ⟨by with_unfolding_all decide,
+   (primal_sound Q exInp exInp_wf exInp_kernelOk exInp_cov0 exInp_basis exRows exK exInp_rows exσ (exInp_feas Q)).2⟩
+
+example (Q : CType → List ℝ → Prop) (t : ℝ) : 0 ≤ 1 - 2 * Real.exp t + Real.exp (2 * t) := by
+  have h := (primal_sound Q exInp exInp_wf exInp_kernelOk exInp_cov0 exInp_basis exRows exK exInp_rows exσ
+    (exInp_feas Q)).2 [t] ⟨rfl, trivial⟩
+  simp [sigVal, rdot, cVal, exInp, exAlpha, exC, constE, argVal, List.range, List.range.loop] at h
+  linarith
+
+/-! ### non-vacuity (ii): a conditional instance, `3 − eˣ` on `X = {x ≤ 1}` (not nonnegative on ℝ) -/
+
+def exAlphaX : List (List Rat) := [[0], [1]]
+def exCX : List AffE := [constE 3, constE (-1)]
+def exX : Dom := { A := [[-1]], b := [1], K := [⟨.pos, 1⟩], N := 1 }
+def exEchX : Ech := defaultEch exAlphaX (some (exCX.map classify)) true {} []
+def exPX : PIds := { i := 1, nu := [10], basis := [], cvar := [11], epi := [12], eta := [13] }
+def exInpX : PrimalIn :=
+  { n := 1, alpha := exAlphaX, c := exCX, X := some exX, settings := {}, ech := exEchX, ids := [exPX], dummy := 20 }
+
+def exRowsX : List CRow :=
+  [⟨[(13, -1), (12, -1)], -1, false⟩,
+   ⟨[(12, -1)], 0, false⟩, ⟨[(11, 1)], 0, true⟩, ⟨[(10, 1)], 0, false⟩,
+   ⟨[(10, -1), (13, 1)], 0, false⟩,
+   ⟨[(13, 1)], 0, false⟩,
+   ⟨[(11, -1)], 3, false⟩, ⟨[(20, 0)], 0, false⟩]
+def exKX : List Cone := [⟨.pos, 1⟩, ⟨.exp, 3⟩, ⟨.zero, 1⟩, ⟨.pos, 1⟩, ⟨.pos, 2⟩]
+
+theorem exInpX_rows : primalRows exInpX = .ok (exRowsX, exKX) := by with_unfolding_all decide
+
+theorem exX_wf : domWf 1 exX := by
+  unfold domWf
+  with_unfolding_all decide
+
+theorem exInpX_wf : WfPrimal exInpX where
+  width := by with_unfolding_all decide
+  clen := by with_unfolding_all decide
+  idsU := by with_unfolding_all decide
+  cover := by with_unfolding_all decide
+  sizes := by with_unfolding_all decide
+  negConst := by with_unfolding_all decide
+  dom := by
+    intro X h
+    have : X = exX := by
+      have h' : some exX = some X := h
+      exact (Option.some.inj h').symm
+    subst this
+    exact ⟨exX_wf, by with_unfolding_all decide⟩
+
+theorem exInpX_kernelOk : KernelOk exInpX := by intro h; cases h
+theorem exInpX_cov0 : ∀ p ∈ exInpX.ids, p.nu = [] → trueIdx (coverOf exInpX.ech p.i) = [] := by
+  with_unfolding_all decide
+theorem exInpX_basis : exInpX.settings.kernelBasis = true → ∀ p ∈ exInpX.ids, p.nu ≠ [] →
+    (p.basis ≠ [] ↔ exInpX.X = none) := by intro h; cases h
+
+/-- ν = 1, c^{(1)} = (3, −1), epi = −2, η = 1 -/
+noncomputable def exσX : Nat → ℝ := fun id =>
+  if id = 10 ∨ id = 13 then 1 else if id = 11 then 3 else if id = 12 then -2 else 0
+
+theorem exInpX_feas (Q : CType → List ℝ → Prop) : FeasRows Q exσX exRowsX exKX := by
+  unfold FeasRows exRowsX exKX
+  simp only [feasBlocks_cons, feasBlocks_nil, List.map_cons, List.map_nil, crowVal_false, crowVal_true,
+    List.take_succ_cons, List.take_zero, List.drop_succ_cons, List.drop_zero, conP, realP, expR,
+    List.sum_cons, List.sum_nil, and_true]
+  simp only [exσX]
+  norm_num
+  refine Or.inl ⟨one_pos, ?_⟩
+  have h3 := Real.exp_one_lt_three
+  have h2 : Real.exp 2 = Real.exp 1 * Real.exp 1 := by rw [← Real.exp_add]; norm_num
+  have hp := Real.exp_pos 1
+  rw [one_mul, div_one, h2]
+  nlinarith
+
+/-- `3 − eᵗ ≥ 0` for `t ≤ 1`, obtained from the compiled rows through `primal_sound` -/
+example (Q : CType → List ℝ → Prop) (t : ℝ) (ht : t ≤ 1) : 0 ≤ 3 - Real.exp t := by
+  have hdom : InDom Q exInpX.X exInpX.n [t] := by
+    refine ⟨rfl, [t], rfl, rfl, ?_⟩
+    show FeasBlocks (conP Q) [⟨.pos, 1⟩] (domSlack exX [t])
+    simp [feasBlocks_cons, domSlack, exX, rdot, conP, realP]
+    linarith
+  have h := (primal_sound Q exInpX exInpX_wf exInpX_kernelOk exInpX_cov0 exInpX_basis exRowsX exKX exInpX_rows
+    exσX (exInpX_feas Q)).2 [t] hdom
+  simp [sigVal, rdot, cVal, exInpX, exAlphaX, exCX, constE, argVal, List.range, List.range.loop] at h
+  linarith
 
 end Sageopt.Props.C01
